@@ -371,6 +371,46 @@ func (p *Program) tableFuncs(g *ssa.Global) []tableEntry {
 	return out
 }
 
+// tableConsts: constant key -> constant value pairs stored by the package
+// initialiser into the map held by a package-level variable.
+func (p *Program) tableConsts(g *ssa.Global) map[string]*ssa.Const {
+	out := map[string]*ssa.Const{}
+	if g == nil || g.Pkg == nil {
+		return out
+	}
+	ini := g.Pkg.Func("init")
+	if ini == nil {
+		return out
+	}
+	var maps []ssa.Value
+	for _, b := range ini.Blocks {
+		for _, ins := range b.Instrs {
+			if st, ok := ins.(*ssa.Store); ok && st.Addr == ssa.Value(g) {
+				maps = append(maps, st.Val)
+			}
+		}
+	}
+	for _, b := range ini.Blocks {
+		for _, ins := range b.Instrs {
+			mu, ok := ins.(*ssa.MapUpdate)
+			if !ok {
+				continue
+			}
+			for _, m := range maps {
+				if mu.Map != m {
+					continue
+				}
+				k, ok1 := mu.Key.(*ssa.Const)
+				v, ok2 := mu.Value.(*ssa.Const)
+				if ok1 && ok2 && k.Value != nil {
+					out[k.Value.ExactString()] = v
+				}
+			}
+		}
+	}
+	return out
+}
+
 // dispatchTable: when v is the result of looking a key up in the map of a
 // package-level variable, that variable.
 func dispatchTable(v ssa.Value) *ssa.Global {
